@@ -10,7 +10,28 @@ pub mod timer {
         _t: PhantomData<T>,
     }
 
+    #[derive(Clone, Debug)]
     pub struct Timeout(());
+
+    /// `Builder`: tick duration, slots and capacity are accepted; the stand-in keeps the default
+    /// wheel's 100 ms tick (the only one measured against the real crate)
+    #[derive(Default)]
+    pub struct Builder;
+
+    impl Builder {
+        pub fn tick_duration(self, _d: Duration) -> Builder {
+            self
+        }
+        pub fn num_slots(self, _n: usize) -> Builder {
+            self
+        }
+        pub fn capacity(self, _n: usize) -> Builder {
+            self
+        }
+        pub fn build<T>(self) -> Timer<T> {
+            Timer::default()
+        }
+    }
 
     impl<T> Default for Timer<T> {
         fn default() -> Timer<T> {
@@ -23,6 +44,17 @@ pub mod timer {
             dsim::yield_point(dsim::Op::Small);
             dsim::with(|w| w.timer_set(self.id, delay_from_now));
             Timeout(())
+        }
+
+        /// the stand-in does not keep the state handed to `set_timeout`: callers that poll the
+        /// timer for it get `None` (the server never polls its timer)
+        pub fn poll(&mut self) -> Option<T> {
+            None
+        }
+
+        pub fn cancel_timeout(&mut self, _timeout: &Timeout) -> Option<T> {
+            dsim::with(|w| w.timer_cancel(self.id));
+            None
         }
     }
 
